@@ -522,6 +522,9 @@ def write_meta_data(md, md_file):
             if isinstance(val, float):
                 if val.is_integer():
                     val = int(val)
+                else:
+                    # fixed notation: the exponent form python uses below 1e-4 would be read back as a string
+                    val = np.format_float_positional(val, trim="-")
             fid.write(f"{key}={val}\n")
 
 
